@@ -20,6 +20,7 @@ var scripts = map[string]func(rn *Runner){
 	"notifyblock": scriptNotifyBlock,
 	"cfgquorum":   scriptCfgQuorum,
 	"staletn":     scriptStaleTN,
+	"promote":     scriptPromote,
 }
 
 func (rn *Runner) el() time.Duration {
@@ -243,6 +244,10 @@ func scriptCfgTrunc(rn *Runner) {
 // commit on a busy FSM; then the server crashes and restarts from that snapshot.
 func scriptSnapCfg(rn *Runner) {
 	c := rn.C
+	if rn.Sc.P.RestoreCommitted {
+		scriptSnapCfgRC(rn)
+		return
+	}
 	for round := 0; round < 4; round++ {
 		L := rn.waitLeader(nil, 30)
 		if L == nil {
@@ -650,6 +655,177 @@ func scriptStaleTN(rn *Runner) {
 			c.Sample(nd)
 		}
 		c.Net.SetKindDup("tn", 0)
+		time.Sleep(3 * rn.el())
+		for _, nd := range c.Nodes {
+			c.Reading(nd, "quiet")
+		}
+	}
+}
+
+// scriptPromote: the usual way a cluster grows - a server joins as a non-voter, catches up and is
+// promoted - all under ONE leadership, so whatever the leader cached about a peer when replication
+// to it started (suffrage, address) is by now out of date. After every step the leader is asked to
+// verify its leadership, to pass a barrier and to take a write; at the end it is cut off with a
+// verification pending, so the step-down path has to answer it.
+func scriptPromote(rn *Runner) {
+	c := rn.C
+	hb := time.Duration(rn.Sc.P.HeartbeatMs) * time.Millisecond
+	L := rn.waitLeader(nil, 30)
+	if L == nil {
+		return
+	}
+	time.Sleep(rn.el())
+	if L = rn.waitLeader(nil, 30); L == nil {
+		return
+	}
+	ask := func() {
+		l := L
+		rn.bg(func() { c.Verify(94, l) })
+		rn.bg(func() { c.Barrier(95, l, 50*time.Millisecond) })
+		rn.applyBurst(l, 1, "pr")
+	}
+	var spares []*Node
+	for i := rn.Sc.P.Voters + rn.Sc.P.NonVoters; i < len(c.Nodes); i++ {
+		spares = append(spares, c.Nodes[i])
+	}
+	for i := rn.Sc.P.Voters; i < rn.Sc.P.Voters+rn.Sc.P.NonVoters; i++ {
+		spares = append(spares, c.Nodes[i]) // initial non-voters are promoted as well
+	}
+	step := func(op string, tgt *Node) {
+		if c.Leader() != L {
+			return
+		}
+		rn.note("%s %s under leader %s", op, tgt.name, L.name)
+		c.Membership(91, L, op, tgt, 0, 2*hb)
+		time.Sleep(hb / 2)
+		ask()
+		time.Sleep(hb)
+	}
+	for _, sp := range spares {
+		step("addnonvoter", sp)
+	}
+	time.Sleep(2 * hb)
+	for _, sp := range spares {
+		step("addvoter", sp)
+	}
+	// the voters the leader started with go away: from now on every quorum needs promoted servers
+	if rn.rng.Intn(2) == 0 {
+		var old []*Node
+		for i := 0; i < rn.Sc.P.Voters; i++ {
+			if c.Nodes[i] != L {
+				old = append(old, c.Nodes[i])
+			}
+		}
+		switch rn.rng.Intn(3) {
+		case 0:
+			for _, o := range old {
+				step(pick(rn.rng, "demote", "remove"), o)
+			}
+		case 1:
+			for _, o := range old {
+				rn.cutOff(o)
+				break
+			}
+			time.Sleep(hb)
+			ask()
+		}
+	}
+	for k := 0; k < 3; k++ {
+		ask()
+		time.Sleep(hb)
+	}
+	if len(spares) > 0 && rn.rng.Intn(2) == 0 {
+		// demote and promote again
+		step("demote", spares[0])
+		step("addvoter", spares[0])
+		ask()
+	}
+	time.Sleep(2 * hb)
+	for _, nd := range c.Nodes {
+		c.Reading(nd, "quiet")
+	}
+	// the leader loses its majority with verifications pending
+	if c.Leader() == L {
+		l := L
+		rn.cutOff(L)
+		for k := 0; k < 3; k++ {
+			rn.bg(func() { c.Verify(94, l) })
+			time.Sleep(time.Duration(rn.Sc.P.LeaseMs/2+1) * time.Millisecond)
+		}
+		time.Sleep(3 * rn.el())
+		c.Net.Heal()
+		time.Sleep(3 * rn.el())
+	}
+}
+
+// scriptSnapCfgRC (C10, C11; RestoreCommittedLogs on a commit-tracking store): every server is
+// stopped at the moment its durable commit index is exactly the index of the newest configuration
+// entry (one more batch was stored after the change committed, and that batch carried the commit
+// index). After the restart the servers replay up to that entry, somebody leads, snapshots with few
+// trailing logs, and everybody restarts once more - now from the snapshot.
+func scriptSnapCfgRC(rn *Runner) {
+	c := rn.C
+	for round := 0; round < 3; round++ {
+		L := rn.waitLeader(nil, 30)
+		if L == nil {
+			return
+		}
+		time.Sleep(rn.el())
+		if L = rn.waitLeader(nil, 30); L == nil {
+			return
+		}
+		tgt := c.Nodes[len(c.Nodes)-1]
+		if tgt == L {
+			tgt = c.Nodes[0]
+		}
+		op := []string{"addnonvoter", "remove", "addvoter"}[round%3]
+		rn.applyBurst(L, 2+rn.rng.Intn(3), "rc")
+		time.Sleep(rn.el() / 2)
+		res := c.Membership(91, L, op, tgt, 0, 100*time.Millisecond)
+		if res.Err != nil {
+			rn.note("membership change failed: %v", res.Err)
+			time.Sleep(rn.el())
+			continue
+		}
+		// k extra batches after the change committed: 1 leaves the staged commit index on the
+		// configuration entry itself
+		extra := pick(rn.rng, 1, 1, 1, 0, 2)
+		for i := 0; i < extra; i++ {
+			rn.ctr[12]++
+			c.Apply(12, L, fmt.Sprintf("rcx.%d k0", rn.ctr[12]), 50*time.Millisecond)
+		}
+		rn.note("%s %s committed, %d more batch(es), everybody stops", op, tgt.name, extra)
+		for _, nd := range c.Nodes {
+			c.Crash(nd)
+		}
+		time.Sleep(rn.el() / 2)
+		for _, nd := range c.Nodes {
+			c.Start(nd)
+		}
+		N := rn.waitLeader(nil, 40)
+		if N == nil {
+			continue
+		}
+		time.Sleep(rn.el())
+		if N = rn.waitLeader(nil, 40); N == nil {
+			continue
+		}
+		rn.applyBurst(N, 6+rn.rng.Intn(6), "rcs")
+		time.Sleep(rn.el())
+		c.Snapshot(90, N)
+		time.Sleep(rn.el())
+		// a membership change on the restarted leader has to go through as well
+		if rn.rng.Intn(2) == 0 {
+			rn.bg(func() { c.Membership(91, N, pick(rn.rng, "addnonvoter", "remove"), tgt, 0, 100*time.Millisecond) })
+			time.Sleep(2 * rn.el())
+		}
+		for _, nd := range c.Nodes {
+			c.Crash(nd)
+		}
+		time.Sleep(rn.el() / 2)
+		for _, nd := range c.Nodes {
+			c.Start(nd)
+		}
 		time.Sleep(3 * rn.el())
 		for _, nd := range c.Nodes {
 			c.Reading(nd, "quiet")
